@@ -851,6 +851,15 @@ impl LineRow {
         })
     }
 
+    /// Return true if the most recent `DW_LNE_set_address` in this sequence was a tombstone.
+    ///
+    /// Rows that are generated while this is true are skipped by `LineRows`.
+    #[cfg(feature = "write")]
+    #[inline]
+    pub(crate) fn is_tombstone(&self) -> bool {
+        self.tombstone
+    }
+
     /// Perform any reset that was required after copying the previous row.
     #[inline]
     pub fn reset<R: Reader>(&mut self, header: &LineProgramHeader<R>) {
